@@ -802,7 +802,7 @@ let d_next =
     false, true, true, true, false)), (String ((Ascii (true, true, true,
     true, false, true, true, false)), (String ((Ascii (false, true, false,
     false, true, true, true, false)), (String ((Ascii (false, true, true,
-    true, false, true, false, false)), (String ((Ascii (false, true, false,
+    true, false, true, false, false)), (String ((Ascii (true, false, false,
     false, false, true, true, false)), (String ((Ascii (false, true, false,
     false, true, true, true, false)), (String ((Ascii (true, false, true,
     false, false, true, true, false)), (String ((Ascii (true, true, true,
@@ -827,7 +827,7 @@ let d_next =
     (true, true, true, true, false, true, true, false)), (String ((Ascii
     (false, true, false, false, true, true, true, false)), (String ((Ascii
     (false, true, true, true, false, true, false, false)), (String ((Ascii
-    (true, false, false, false, false, true, true, false)), (String ((Ascii
+    (false, true, false, false, false, true, true, false)), (String ((Ascii
     (false, true, false, false, true, true, true, false)), (String ((Ascii
     (true, false, true, false, false, true, true, false)), (String ((Ascii
     (true, true, true, false, false, true, true, false)), (String ((Ascii
